@@ -285,16 +285,15 @@ package tlb
 //@ pred hitBy(pg, pid, nAddr, ma) = pg.Valid && (pid == 0 || pg.PID == pid) && (nAddr == 0 || ((pg.VAddr in ma) && ma[pg.VAddr]))
 //@ pred setClean(s, pid, nAddr, ma) = forall w in 0..len(s.Blocks) :: !hitBy(s.Blocks[w].Page, pid, nAddr, ma)
 //@ pred setCleanAll(s, pid) = forall w in 0..len(s.Blocks) :: !(s.Blocks[w].Page.Valid && (pid == 0 || s.Blocks[w].Page.PID == pid))
+//@ pred setCleanAt(s, pid, va) = forall w in 0..len(s.Blocks) :: !(s.Blocks[w].Page.Valid && (pid == 0 || s.Blocks[w].Page.PID == pid) && s.Blocks[w].Page.VAddr == va)
 //@ pred setsShape(state) = forall a in 0..len(state.Sets) :: state.Sets[a].LRU.keyMap != nil
 // the sets were built one by one (initSets / JSON load): their block arrays and key maps are pairwise distinct
 //@ pred setsApart(state) = forall a in 0..len(state.Sets) :: forall b in 0..len(state.Sets) :: a != b ==> ref(state.Sets[a].Blocks) != ref(state.Sets[b].Blocks) && state.Sets[a].LRU.keyMap != state.Sets[b].LRU.keyMap
 //@ fn invalidateEntries
 //@   property C25
 //@   requires state != nil && spec.PageSize > 0 && setsShape(state) && setsApart(state)
-//@   label C25.tlb.inval.listed
-//@   ensures forall j in 0..len(addresses) :: (alignP(addresses[j], spec.PageSize) in matchAddr) && matchAddr[alignP(addresses[j], spec.PageSize)]
-//@   label C25.tlb.inval.gone
-//@   ensures forall a in 0..len(state.Sets) :: setClean(state.Sets[a], pid, len(addresses), matchAddr)
+//@   label C25.tlb.inval.gone.addr
+//@   ensures forall j in 0..len(addresses) :: forall a in 0..len(state.Sets) :: setCleanAt(state.Sets[a], pid, alignP(addresses[j], spec.PageSize))
 //@   label C25.tlb.inval.gone.all
 //@   ensures len(addresses) == 0 ==> forall a in 0..len(state.Sets) :: setCleanAll(state.Sets[a], pid)
 //@   label C25.tlb.inval.shape
@@ -351,6 +350,8 @@ package tlb
 //@   ensures result && !old(paused(m)) ==> acked(m, msg.Command, msg.ID, msg.Src, false, memcontrolprotocol.ErrMustBePausedOrDrained)
 //@   label C25.tlb.invalidate.gone.all
 //@   ensures result && old(paused(m)) && len(msg.Addresses) == 0 ==> forall a in 0..len(m.comp.State.Sets) :: setCleanAll(m.comp.State.Sets[a], msg.PID)
+//@   label C25.tlb.invalidate.gone.addr
+//@   ensures result && old(paused(m)) ==> forall j in 0..len(msg.Addresses) :: forall a in 0..len(m.comp.State.Sets) :: setCleanAt(m.comp.State.Sets[a], msg.PID, alignP(msg.Addresses[j], m.comp.spec.PageSize))
 //@   label C25.tlb.invalidate.state
 //@   ensures unchanged(m.comp.State.TLBState)
 //@   label C25.tlb.invalidate.idgen
